@@ -2,7 +2,7 @@
 import copy
 import z3
 from . import smt
-from .values import SV, Ref, Rope, SymSeq, Ext, ExcVal, OptV, z, tag_of
+from .values import SV, Ref, Rope, SymSeq, Ext, ExcVal, OptV, IteV, z, tag_of
 
 
 class Undecided(Exception):
@@ -267,11 +267,16 @@ class Ctx:
     def force(self, v):
         """Decide the None-ness of a lazily optional value (forks the path if it is still open)."""
         while isinstance(v, OptV):
-            v = None if self.branch(v.isnone) else v.val
+            if isinstance(v, IteV):
+                v = v.a if self.branch(v.cond) else v.b
+            else:
+                v = None if self.branch(v.isnone) else v.val
         return v
 
     def havoc_like(self, v, hint="h"):
         """Fresh value with the same tag as v (for loop targets)."""
+        if isinstance(v, IteV):
+            return IteV(smt.fresh(smt.Bool, hint + ".which"), self.havoc_like(v.a, hint), self.havoc_like(v.b, hint))
         if isinstance(v, OptV):
             return OptV(smt.fresh(smt.Bool, hint + ".isnone"), self.havoc_like(v.val, hint))
         if isinstance(v, Ext):
